@@ -1,5 +1,427 @@
-import CachedModel
+/-
+  C06  Admission follows the TinyLFU rule: colder keys never evict hotter ones.
+
+  All statements are about `CachedModel/Admission.lean` (`maybeAdd`, `createLoop`, `fillSample`), the
+  transcription of src/cache/policy/admission_policy.rs + cache_weight.rs that the correspondence check
+  runs against the real `AdmissionPolicy`.
+  Quantifiers: every admission state `Adm` (no well-formedness assumed: `used` need not be the sum of the
+  charged weights, `kw` may hold duplicate ids), every incoming id / key / hash / weight (also `w ≤ 0`),
+  every TinyLFU state, every sample size, every oracle (legal or not: an illegal oracle makes the model
+  return `.error`, and the theorems speak about `.ok` results), every fuel.
+-/
+import CachedProofs.Lemmas.Admission
 
 namespace Cached
+
+/-! ## 1, 2  the two exits that never look at the sketch -/
+
+/-- The key fits: it is accepted, charged, and nothing is evicted, popped or consumed from the oracle. -/
+theorem C06_fits (t : TinyLFU) (size : Nat) (a : Adm) (id key hash : Nat) (w : Int) (o : Oracle)
+    (hmax : ¬ (w > a.max)) (hfit : a.max - a.used ≥ w) :
+    ∃ r, maybeAdd t size a id key hash w o = .ok r ∧ r.status = .accepted ∧ r.evicted = [] ∧
+      r.popped = [] ∧ r.adm = a.add id key hash w ∧ r.adm.used = a.used + w ∧ r.oracle = o ∧
+      r.incEst = none := by
+  have h : maybeAdd t size a id key hash w o =
+      .ok { status := .accepted, adm := a.add id key hash w, oracle := o } := by
+    unfold maybeAdd
+    simp only [hmax, hfit, if_false, if_true]
+  exact ⟨_, h, rfl, rfl, rfl, rfl, rfl, rfl, rfl⟩
+
+/-- Heavier than the whole cache: rejected outright, the admission state is untouched. -/
+theorem C06_too_heavy (t : TinyLFU) (size : Nat) (a : Adm) (id key hash : Nat) (w : Int) (o : Oracle)
+    (hmax : w > a.max) :
+    ∃ r, maybeAdd t size a id key hash w o = .ok r ∧ r.status = .rejected .tooHeavy ∧ r.adm = a ∧
+      r.evicted = [] ∧ r.popped = [] ∧ r.oracle = o := by
+  have h : maybeAdd t size a id key hash w o =
+      .ok { status := .rejected .tooHeavy, adm := a, oracle := o } := by
+    unfold maybeAdd
+    simp only [hmax, if_true]
+  exact ⟨_, h, rfl, rfl, rfl, rfl, rfl⟩
+
+/-! ## 3  the eviction rule, declaratively -/
+
+/-- `Evicts w incEst a sample st a' vs`: starting from admission state `a` with eviction sample `sample`,
+    making room for weight `w` on behalf of a key whose estimate is `incEst` ends with status `st` in
+    admission state `a'` after evicting `vs` (in order). -/
+inductive Evicts (w : Int) (incEst : Nat) : Adm → List SKey → Status → Adm → List SKey → Prop where
+  /-- there is room: stop, accept -/
+  | enough {a : Adm} {sample : List SKey} :
+      a.max - a.used ≥ w → Evicts w incEst a sample .accepted a []
+  /-- no room and nothing left to evict: reject -/
+  | exhausted {a : Adm} :
+      a.max - a.used < w → Evicts w incEst a [] (.rejected .noSpace) a []
+  /-- no room and the coldest sampled key is hotter than the incoming one: reject, evict nothing more -/
+  | hotter {a : Adm} {sample : List SKey} (k : SKey) :
+      a.max - a.used < w → k.coldestOf sample → incEst < k.est →
+      Evicts w incEst a sample (.rejected .noSpace) a []
+  /-- no room and the coldest sampled key is no hotter than the incoming one: evict it, go on with a
+      sample that no longer mentions it -/
+  | evict {a : Adm} {sample : List SKey} {st : Status} {a' : Adm} {vs : List SKey}
+      (k : SKey) (sample' : List SKey) :
+      a.max - a.used < w → k.coldestOf sample → k.est ≤ incEst → (∀ x ∈ sample', x.id ≠ k.id) →
+      Evicts w incEst (a.delete k.id).1 sample' st a' vs →
+      Evicts w incEst a sample st a' (k :: vs)
+
+/-- The `(id, key, weight)` triples reported to the delete hook for the victims `vs`, evicted in order
+    starting from `a`: a victim is reported iff it is charged at the moment of its eviction. -/
+def evictedOf : Adm → List SKey → List Evicted
+  | _, [] => []
+  | a, k :: vs =>
+    (match (a.delete k.id).2 with | some e => [e] | none => []) ++ evictedOf (a.delete k.id).1 vs
+
+/-- **Every successful run of the `create_space` loop follows the rule**, and its bookkeeping is exact:
+    the popped keys are the victims plus at most one spared key that was hotter than the incoming one,
+    and the evictions reported are those of the victims that were charged. -/
+theorem C06_loop_follows_rule (t : TinyLFU) (size : Nat) (w : Int) (incEst : Nat) :
+    ∀ (fuel : Nat) (a : Adm) (sample : List SKey) (o : Oracle) (ev : List Evicted) (pp : List SKey)
+      (r : LoopResult),
+      createLoop t size w incEst fuel a sample o ev pp = .ok r →
+      ∃ vs spared, Evicts w incEst a sample r.status r.adm vs ∧
+        r.popped = pp.reverse ++ vs ++ spared ∧
+        (spared = [] ∨ ∃ k, spared = [k] ∧ incEst < k.est ∧ r.status = .rejected .noSpace) ∧
+        r.evicted = ev.reverse ++ evictedOf a vs := by
+  intro fuel
+  induction fuel with
+  | zero =>
+    intro a sample o ev pp r h
+    simp [createLoop] at h
+  | succ fuel ih =>
+    intro a sample o ev pp r h
+    unfold createLoop at h
+    split at h
+    · -- enough room
+      rename_i hge
+      cases h
+      exact ⟨[], [], .enough hge, by simp, Or.inl rfl, by simp [evictedOf]⟩
+    · rename_i hlt
+      have hlt : a.max - a.used < w := by omega
+      split at h
+      · cases h
+      · -- the heap is empty
+        split at h
+        · cases h
+        · rename_i hemp
+          cases h
+          have hs : sample = [] := by simpa using hemp
+          subst hs
+          exact ⟨[], [], .exhausted hlt, by simp, Or.inl rfl, by simp [evictedOf]⟩
+      · rename_i id pops _
+        split at h
+        · cases h
+        · rename_i k hfind
+          obtain ⟨hmem, hid⟩ := find?_id_some hfind
+          subst hid
+          split at h
+          · cases h
+          · rename_i hmax
+            have hcold : k.coldestOf sample :=
+              (SKey.isMaxOf_iff_coldestOf hmem).mp (by simpa using hmax)
+            split at h
+            · -- the coldest key is hotter than the incoming one
+              rename_i hhot
+              cases h
+              exact ⟨[], [k], .hotter k hlt hcold hhot, by simp, Or.inr ⟨k, rfl, hhot, rfl⟩,
+                by simp [evictedOf]⟩
+            · -- evict it
+              rename_i hcolder
+              have hcolder : k.est ≤ incEst := by omega
+              simp only [] at h
+              split at h
+              · cases h
+              · rename_i sample'' o' hfill
+                obtain ⟨vs, spared, hE, hpop, hsp, hev⟩ := ih _ _ _ _ _ _ h
+                have hfresh : ∀ x ∈ sample'', x.id ≠ k.id := by
+                  refine fillSample_id_ne (Adm.delete_get?_same a k.id) ?_ hfill
+                  intro x hx
+                  rw [List.mem_filter] at hx
+                  simpa using hx.2
+                refine ⟨k :: vs, spared, ?_, ?_, hsp, ?_⟩
+                · exact .evict k sample'' hlt hcold hcolder hfresh hE
+                · rw [hpop]; simp
+                · rw [hev]
+                  simp only [evictedOf]
+                  cases (a.delete k.id).2 <;> simp
+
+/-! ### consequences of the rule (by induction on `Evicts`) -/
+
+/-- The admission state after evicting `vs` in order. -/
+def admAfter : Adm → List SKey → Adm
+  | a, [] => a
+  | a, k :: vs => admAfter (a.delete k.id).1 vs
+
+/-- **Colder keys never evict hotter ones**: every victim's estimate is at most the incoming key's. -/
+theorem C06_victims_colder {w : Int} {incEst : Nat} {a a' : Adm} {sample vs : List SKey} {st : Status}
+    (h : Evicts w incEst a sample st a' vs) : ∀ k ∈ vs, k.est ≤ incEst := by
+  induction h with
+  | enough _ => intro k hk; cases hk
+  | exhausted _ => intro k hk; cases hk
+  | hotter _ _ _ _ => intro k hk; cases hk
+  | evict k _ _ _ hle _ _ ih =>
+    intro x hx
+    rw [List.mem_cons] at hx
+    rcases hx with rfl | hx
+    · exact hle
+    · exact ih x hx
+
+/-- The put is accepted exactly when the final state has room; the only other outcome is `noSpace`. -/
+theorem C06_accepted_iff {w : Int} {incEst : Nat} {a a' : Adm} {sample vs : List SKey} {st : Status}
+    (h : Evicts w incEst a sample st a' vs) :
+    (st = .accepted ↔ a'.max - a'.used ≥ w) ∧ (st ≠ .accepted → st = .rejected .noSpace) := by
+  induction h with
+  | enough hge => exact ⟨⟨fun _ => hge, fun _ => rfl⟩, fun hne => absurd rfl hne⟩
+  | exhausted hlt => exact ⟨⟨fun e => (by cases e), fun hge => (by omega)⟩, fun _ => rfl⟩
+  | hotter _ hlt _ _ => exact ⟨⟨fun e => (by cases e), fun hge => (by omega)⟩, fun _ => rfl⟩
+  | evict _ _ _ _ _ _ _ ih => exact ih
+
+/-- Eviction stops as soon as there is room: from a state with room nothing is evicted at all. -/
+theorem C06_stops_when_enough {w : Int} {incEst : Nat} {a a' : Adm} {sample vs : List SKey} {st : Status}
+    (h : Evicts w incEst a sample st a' vs) (hge : a.max - a.used ≥ w) :
+    vs = [] ∧ st = .accepted ∧ a' = a := by
+  cases h with
+  | enough _ => exact ⟨rfl, rfl, rfl⟩
+  | exhausted hlt => omega
+  | hotter _ hlt _ _ => omega
+  | evict _ _ hlt _ _ _ _ => omega
+
+/-- The final state is the start state with exactly the victims deleted, in order. -/
+theorem C06_final_state {w : Int} {incEst : Nat} {a a' : Adm} {sample vs : List SKey} {st : Status}
+    (h : Evicts w incEst a sample st a' vs) : a' = admAfter a vs := by
+  induction h with
+  | enough _ => rfl
+  | exhausted _ => rfl
+  | hotter _ _ _ _ => rfl
+  | evict _ _ _ _ _ _ _ ih => simpa [admAfter] using ih
+
+/-- The same, victim by victim: each victim is taken from a state that lacks room for `w`. -/
+theorem C06_every_victim_needed {w : Int} {incEst : Nat} {a a' : Adm} {sample vs : List SKey}
+    {st : Status} (h : Evicts w incEst a sample st a' vs) :
+    ∀ pre k post, vs = pre ++ k :: post →
+      (admAfter a pre).max - (admAfter a pre).used < w := by
+  induction h with
+  | enough _ => intro pre k post e; simp at e
+  | exhausted _ => intro pre k post e; simp at e
+  | hotter _ _ _ _ => intro pre k post e; simp at e
+  | evict k0 _ hlt _ _ _ _ ih =>
+    intro pre k post e
+    cases pre with
+    | nil => exact hlt
+    | cons p pre' =>
+      simp only [List.cons_append, List.cons.injEq] at e
+      obtain ⟨rfl, e⟩ := e
+      exact ih pre' k post e
+
+/-- Eviction never changes the capacity. -/
+theorem C06_max_unchanged {w : Int} {incEst : Nat} {a a' : Adm} {sample vs : List SKey} {st : Status}
+    (h : Evicts w incEst a sample st a' vs) : a'.max = a.max := by
+  induction h with
+  | enough _ => rfl
+  | exhausted _ => rfl
+  | hotter _ _ _ _ => rfl
+  | evict k _ _ _ _ _ _ ih => rw [ih, Adm.delete_max]
+
+/-- Each victim is a coldest key of the sample it was popped from (hence a member of it), the first one
+    of the initial sample. -/
+theorem C06_first_victim_coldest {w : Int} {incEst : Nat} {a a' : Adm} {sample vs : List SKey}
+    {st : Status} {k : SKey} (h : Evicts w incEst a sample st a' (k :: vs)) : k.coldestOf sample := by
+  cases h with
+  | evict _ _ _ hc _ _ _ => exact hc
+
+/-! ## 4  `maybe_add` as a whole -/
+
+/-- When the key does not fit, `maybe_add` estimates it, draws a sample of charged keys and follows the rule;
+    the key is charged iff the rule ends in `accepted`. -/
+theorem C06_maybeAdd_rule (t : TinyLFU) (size : Nat) (a : Adm) (id key hash : Nat) (w : Int) (o : Oracle)
+    (r : AdmResult) (hmax : ¬ (w > a.max)) (hlt : a.max - a.used < w)
+    (h : maybeAdd t size a id key hash w o = .ok r) :
+    ∃ (incEst : Nat) (sample vs spared : List SKey) (a' : Adm) (o1 o2 : Oracle),
+      estimateO t hash o = .ok (incEst, o1) ∧
+      fillSample t a.kw (fillNeed size a.kw []) [] o1 = .ok (sample, o2) ∧
+      SampleOK a.kw sample ∧
+      Evicts w incEst a sample r.status a' vs ∧
+      r.incEst = some incEst ∧
+      r.adm = (if r.status = .accepted then a'.add id key hash w else a') ∧
+      r.popped = vs ++ spared ∧
+      (spared = [] ∨ ∃ k, spared = [k] ∧ incEst < k.est ∧ r.status = .rejected .noSpace) ∧
+      r.evicted = evictedOf a vs := by
+  unfold maybeAdd at h
+  have hnfit : ¬ (a.max - a.used ≥ w) := by omega
+  simp only [hmax, hnfit, if_false] at h
+  split at h
+  · cases h
+  · rename_i incEst o1 hest
+    split at h
+    · cases h
+    · rename_i sample o2 hfill
+      split at h
+      · cases h
+      · rename_i lr hloop
+        obtain ⟨vs, spared, hE, hpop, hsp, hev⟩ :=
+          C06_loop_follows_rule t size w incEst _ _ _ _ _ _ _ hloop
+        cases h
+        refine ⟨incEst, sample, vs, spared, lr.adm, o1, o2, hest, hfill,
+          fillSample_sampleOK (SampleOK.nil _) hfill, hE, rfl, rfl, ?_, hsp, ?_⟩
+        · simpa using hpop
+        · simpa using hev
+
+/-- The headline for `maybe_add`: whatever it evicts was estimated no hotter than the incoming key,
+    and whatever it pops but spares was estimated strictly hotter. -/
+theorem C06_maybeAdd_colder_never_evicts_hotter (t : TinyLFU) (size : Nat) (a : Adm) (id key hash : Nat)
+    (w : Int) (o : Oracle) (r : AdmResult) (h : maybeAdd t size a id key hash w o = .ok r) :
+    r.popped = [] ∧ r.evicted = [] ∨
+    ∃ incEst vs spared, r.incEst = some incEst ∧ r.popped = vs ++ spared ∧ r.evicted = evictedOf a vs ∧
+      (∀ k ∈ vs, k.est ≤ incEst) ∧ (∀ k ∈ spared, incEst < k.est) := by
+  by_cases hmax : w > a.max
+  · obtain ⟨r', hr', _, _, hev, hpp, _⟩ := C06_too_heavy t size a id key hash w o hmax
+    rw [h] at hr'; cases hr'
+    exact Or.inl ⟨hpp, hev⟩
+  · by_cases hfit : a.max - a.used ≥ w
+    · obtain ⟨r', hr', _, hev, hpp, _⟩ := C06_fits t size a id key hash w o hmax hfit
+      rw [h] at hr'; cases hr'
+      exact Or.inl ⟨hpp, hev⟩
+    · obtain ⟨incEst, sample, vs, spared, a', o1, o2, _, _, _, hE, hinc, _, hpp, hsp, hev⟩ :=
+        C06_maybeAdd_rule t size a id key hash w o r hmax (by omega) h
+      refine Or.inr ⟨incEst, vs, spared, hinc, hpp, hev, C06_victims_colder hE, ?_⟩
+      intro k hk
+      rcases hsp with rfl | ⟨k', rfl, hk', _⟩
+      · cases hk
+      · simp only [List.mem_singleton] at hk; subst hk; exact hk'
+
+/-! ## 5  termination: the fuel `|kw| + 1` is never exhausted -/
+
+/-- With every sampled id charged, `|kw| + 1` iterations suffice: each iteration that goes on deletes a
+    charged id. -/
+theorem C06_fuel_suffices (t : TinyLFU) (size : Nat) (w : Int) (incEst : Nat) :
+    ∀ (fuel : Nat) (a : Adm) (sample : List SKey) (o : Oracle) (ev : List Evicted) (pp : List SKey),
+      SampleOK a.kw sample → a.kw.length < fuel →
+      createLoop t size w incEst fuel a sample o ev pp ≠ .error "fuel exhausted" := by
+  intro fuel
+  induction fuel with
+  | zero => intro a sample o ev pp _ hlen; omega
+  | succ fuel ih =>
+    intro a sample o ev pp hok hlen
+    unfold createLoop
+    split
+    · intro e; cases e
+    · split
+      · intro e; injection e with e; revert e; decide
+      · split
+        · intro e; injection e with e; revert e; decide
+        · intro e; cases e
+      · rename_i id pops _
+        split
+        · intro e; injection e with e; revert e; decide
+        · rename_i k hfind
+          obtain ⟨hmem, hid⟩ := find?_id_some hfind
+          subst hid
+          split
+          · intro e; injection e with e; revert e; decide
+          · split
+            · intro e; cases e
+            · simp only []
+              split
+              · rename_i e' heq
+                intro e; injection e with e
+                subst e
+                exact fillSample_ne_fuel _ _ _ _ _ heq
+              · rename_i sample'' o' hfill
+                refine ih _ _ _ _ _ ?_ ?_
+                · exact fillSample_sampleOK (SampleOK.delete_filter hok k.id) hfill
+                · have := Adm.delete_length_lt a k.id (hok k hmem)
+                  omega
+
+/-- `maybe_add` never runs out of fuel: the model's bound on the loop is not a restriction. -/
+theorem C06_maybeAdd_fuel (t : TinyLFU) (size : Nat) (a : Adm) (id key hash : Nat) (w : Int) (o : Oracle) :
+    maybeAdd t size a id key hash w o ≠ .error "fuel exhausted" := by
+  unfold maybeAdd
+  split
+  · intro e; cases e
+  · split
+    · intro e; cases e
+    · split
+      · rename_i e' heq
+        intro e; injection e with e
+        subst e
+        exact estimateO_ne_fuel _ _ _ heq
+      · split
+        · rename_i e' heq
+          intro e; injection e with e
+          subst e
+          exact fillSample_ne_fuel _ _ _ _ _ heq
+        · rename_i sample o2 hfill
+          split
+          · rename_i e' heq
+            intro e; injection e with e
+            subst e
+            exact C06_fuel_suffices t size w _ _ _ _ _ _ _
+              (fillSample_sampleOK (SampleOK.nil _) hfill) (Nat.lt_succ_self _) heq
+          · intro e; cases e
+
+/-! ## 6  non-vacuity -/
+
+/-- capacity 10, 9 used by three keys of weights 2, 4, 3 -/
+def exAdm : Adm :=
+  { max := 10, used := 9,
+    kw := [(1, { key := 101, hash := 11, weight := 2 }), (2, { key := 102, hash := 12, weight := 4 }),
+           (3, { key := 103, hash := 13, weight := 3 })] }
+
+def exLFU : TinyLFU := TinyLFU.new 16 [1, 2, 3, 4]
+
+/-- what the examples look at in a result -/
+structure ExView where
+  status : Status
+  popped : List SKey
+  evicted : List Evicted
+  incEst : Option Nat
+  used : Int
+  charged : List Nat
+  oracleUsedUp : Bool
+  deriving DecidableEq
+
+def exView (r : Except String AdmResult) : Option ExView :=
+  r.toOption.map (fun r => ⟨r.status, r.popped, r.evicted, r.incEst, r.adm.used, r.adm.kw.keys, r.oracle.isEmpty⟩)
+
+/-- Incoming key of weight 6 and estimate 1 (doorkeeper hit); keys 1 and 2 have estimate 0, key 3 has 1.
+    The hypotheses of `C06_maybeAdd_rule` hold, two evictions are needed, the heavier of the two coldest keys
+    goes first, the hotter key 3 stays, and the put is accepted. -/
+example :
+    ¬ ((6 : Int) > exAdm.max) ∧ exAdm.max - exAdm.used < 6 ∧
+    exView (maybeAdd exLFU 3 exAdm 4 104 14 6
+        { dk := [true, false, false, true], ids := [1, 2, 3], pops := [some 2, some 1] }) =
+      some ⟨.accepted,
+            [{ id := 2, weight := 4, est := 0 }, { id := 1, weight := 2, est := 0 }],
+            [(2, 102, 4), (1, 101, 2)], some 1, 9, [4, 3], true⟩ := by decide
+
+/-- Popping the lighter of the two coldest keys first is not a legal heap pop: the model refuses the oracle. -/
+example :
+    exView (maybeAdd exLFU 3 exAdm 4 104 14 6
+        { dk := [true, false, false, true], ids := [1, 2, 3], pops := [some 1, some 2] }) = none := by decide
+
+/-- The candidate is colder (estimate 0) than every sampled key (estimate 1): the first pop is spared,
+    nothing is evicted, the put is rejected and the admission state is unchanged. -/
+example :
+    exView (maybeAdd exLFU 3 exAdm 4 104 14 6
+        { dk := [false, true, true, true], ids := [1, 2, 3], pops := [some 2] }) =
+      some ⟨.rejected .noSpace, [{ id := 2, weight := 4, est := 1 }], [], some 0, 9, [1, 2, 3], true⟩ := by
+  decide
+
+/-- A rejected put may still have evicted: key 2 is as cold as the candidate and goes, the next coldest is
+    hotter, so the put is rejected after one eviction (`used` drops from 9 to 5). -/
+example :
+    exView (maybeAdd exLFU 3 exAdm 4 104 14 6
+        { dk := [false, true, false, true], ids := [1, 2, 3], pops := [some 2, some 3] }) =
+      some ⟨.rejected .noSpace,
+            [{ id := 2, weight := 4, est := 0 }, { id := 3, weight := 3, est := 1 }],
+            [(2, 102, 4)], some 0, 5, [1, 3], true⟩ := by decide
+
+/-- The relation itself is inhabited on the same instance (two `evict` steps, then `enough`). -/
+example :
+    let k2 : SKey := { id := 2, weight := 4, est := 0 }
+    let k1 : SKey := { id := 1, weight := 2, est := 0 }
+    let k3 : SKey := { id := 3, weight := 3, est := 1 }
+    Evicts 6 1 exAdm [k3, k2, k1] .accepted (admAfter exAdm [k2, k1]) [k2, k1] := by
+  intro k2 k1 k3
+  refine .evict k2 [k3, k1] (by decide) ⟨by decide, by decide⟩ (by decide) (by decide) ?_
+  refine .evict k1 [k3] (by decide) ⟨by decide, by decide⟩ (by decide) (by decide) ?_
+  exact .enough (by decide)
 
 end Cached
